@@ -5,6 +5,7 @@ import (
 	"fmt"
 	"io"
 	"log/slog"
+	"os"
 	"sync/atomic"
 	"testing"
 	"testing/synctest"
@@ -19,6 +20,8 @@ import (
 	"github.com/gordian-engine/gordian/tm/tmengine/tmelink"
 	"github.com/gordian-engine/gordian/tm/tmengine/tmelink/tmelinktest"
 )
+
+var traceOn = os.Getenv("VERIF_TRACE") != ""
 
 // ---------------------------------------------------------------------------
 // case representation (plain data)
@@ -55,6 +58,7 @@ type Op struct {
 	T    []VT `json:"t,omitempty"`
 	PKH  int  `json:"pkh,omitempty"` // 0 right pubkey hash, 1 wrong, 2 empty
 	Dup  bool `json:"dup,omitempty"`
+	NS   bool `json:"ns,omitempty"` // proposed header is built (and known to the world) but lost in transit
 
 	// round macro
 	S   uint32 `json:"s,omitempty"`   // precommit signer mask (0 = everyone)
@@ -168,6 +172,12 @@ type sim struct {
 	opLog          []string
 	wal            func(finding string)
 	prevDigest     string
+	seenCommitted  map[uint64]string
+	seenCommitting map[string]bool
+	c04Hash        map[uint64]string
+	c04NHR         [4]uint64
+	c04View        [2]uint64
+	altUsed        bool
 }
 
 // ownership says which liveness clauses the running test function owns; in
@@ -501,6 +511,9 @@ func runSim(t *testing.T, c simCase, own ownership, setup func(s *sim)) (out *si
 			}
 			if s.stopped() {
 				return
+			}
+			if traceOn {
+				fmt.Fprintf(os.Stderr, "TRACE step %d op=%+v -> voting %d/%d (v%d, %d phs) committing %d/%d phres=%v voteres=%v excl=%v alive=%v\n", i, op, s.vv.Height, s.vv.Round, s.vv.Version, len(s.vv.ProposedHeaders), s.cv.Height, s.cv.Round, s.lastPHRes, s.lastVoteRes, s.excluded, s.alive)
 			}
 			if s.afterOp != nil {
 				s.afterOp(s, op, i)
